@@ -41,6 +41,9 @@ def run(chk):
         jobs += [(k, 1 + k % 2, 'obj', 'full') for k in (10, 11, 12, 18, 20, 26, 32, 36, 42, 48, 49, 55, 60, 62, 69, 75, 84, 88, 91, 95, 97, 101)]
         jobs += [(k, 1, 'obj', 'cert') for k in kps[22:477:9]]
     ok = ec.run_blocks(chk, exe, jobs, 'c04', nrep=13, nrand=4, nproc=14)
+    # small blocks with the full oracle once more with a long repair window (150 ESIs): tuples that are rare per ESI
+    ok = ec.run_blocks(chk, exe, [(k, 1, 'new', 'full') for k in ((10, 12, 18, 19, 20, 26) if chk.quick else (1, 5, 10, 11, 12, 13, 18, 19, 20, 21, 26, 27, 32, 36, 42))],
+                       'c04long', nrep=150, nrand=2, nproc=14) and ok
     chk.cov['evaluations'] = len(jobs)
     chk.cov['distinct_nontrivial'] = len({(ec.kprime_of(j[0]), j[3]) for j in jobs}) if ok else 0
     chk.cov['rule'] = ('one block encoder per job (K,T,route,mode) - route obj: the block is the second block of a two-block object built by Encoder::new whose first block is one symbol larger; packets checked: all K source packets + repair ESIs '
